@@ -70,8 +70,7 @@ Definition d_c02 (op : string) (a : val) : option val :=
   | "cseg_decode", VL [dt; nc; blk; csz; VS buf] =>
       match get_dt dt, getN nc, get_geom blk, getNs csz with
       | Some dt, Some nc, Some g, Some [cx; cy; cz] =>
-          Some (VL [v_outcome (v_arr (itemsize dt)) (cseg_decode dt nc g cx cy cz buf);
-                    vbool (cseg_decode_guard nc g cx cy cz buf)])
+          Some (v_outcome (v_arr (itemsize dt)) (cseg_decode dt nc g cx cy cz buf))
       | _, _, _, _ => Some bad end
   | "cseg_spec", VL [dt; shape; blk; VS buf] =>
       match get_dt dt, getNs shape, get_geom blk with
